@@ -33,6 +33,7 @@ func NewRand(seed uint64) *Rand {
 func rotl(x uint64, k uint) uint64 { return (x << k) | (x >> (64 - k)) }
 
 // Uint64 returns the next 64 random bits.
+//
 //go:norace
 func (r *Rand) Uint64() uint64 {
 	res := rotl(r.s[1]*5, 7) * 9
@@ -47,6 +48,7 @@ func (r *Rand) Uint64() uint64 {
 }
 
 // Intn returns a value in [0,n). n<=0 returns 0.
+//
 //go:norace
 func (r *Rand) Intn(n int) int {
 	if n <= 1 {
@@ -56,6 +58,7 @@ func (r *Rand) Intn(n int) int {
 }
 
 // Range returns a value in [lo,hi] inclusive.
+//
 //go:norace
 func (r *Rand) Range(lo, hi int) int {
 	if hi <= lo {
@@ -65,10 +68,12 @@ func (r *Rand) Range(lo, hi int) int {
 }
 
 // Chance returns true with probability num/den.
+//
 //go:norace
 func (r *Rand) Chance(num, den int) bool { return r.Intn(den) < num }
 
 // Pick returns one of the given ints.
+//
 //go:norace
 func (r *Rand) Pick(xs ...int) int { return xs[r.Intn(len(xs))] }
 
